@@ -204,6 +204,9 @@ def load_file_direct(kind, path):
         if kind == 'rules':
             from tally import merchant_engine as me
             me.load_merchants_file(Path(path))
+        elif kind == 'csv':
+            from tally import merchant_utils as mu
+            mu.load_merchant_rules(path)
         else:
             from tally import section_engine as se
             se.load_sections(path)
@@ -316,7 +319,7 @@ def execute(case, scratch):
             else:
                 needles = [needle]
             observers = [['up', cmd['cfg'], '--summary'], ['diag', cmd['cfg']]]
-            if cmd['kind'] == 'rules':
+            if cmd['kind'] in ('rules', 'csv'):
                 # the statement does not limit the duty to report to one command: the other commands that classify load the same file
                 observers += [['explain', cmd['cfg']], ['discover', cmd['cfg'], '--format', 'json']]
             for argv in observers:
@@ -411,11 +414,18 @@ def build_case(rng, tier):
             s0 = b['sources'][0]
             s0['rows'] = st.gen_rows(rng, 2, first_id=500)
             st.fill_caps(rng, s0['layout'], s0['rows'])
+        kind = rng.choice(['rules', 'rules', 'views', 'csv'])
+        if kind == 'csv':
+            # a legacy CSV rule file that cannot be read is a rules file that cannot be loaded, too
+            b['rules_kind'] = 'csv'
+            b['rules_model'] = None
+            b['csv_rules'] = rf.gen_csv_rules(rng, rng.randint(1, 4))
         files = bm.render_budget(b, rng)
         base = b['base']
-        kind = rng.choice(['rules', 'rules', 'views'])
-        target = base + ('config/merchants.rules' if kind == 'rules' else 'config/views.rules')
+        target = base + {'rules': 'config/merchants.rules', 'views': 'config/views.rules', 'csv': 'config/merchant_categories.csv'}[kind]
         r = rng.random()
+        if kind == 'csv':
+            r = 0.55 + 0.45 * r          # only read faults / undecodable bytes: the CSV reader has no syntax to corrupt
         reads = None
         snap = {p: c.encode('utf-8') for p, c in files.items()}
         if r < 0.55:
